@@ -5,6 +5,8 @@ CONSTANTS
   Mode = "exact"
   AtomicQueue = TRUE
   StaleTimeout = FALSE
+  StaleLists = FALSE
+  ThresholdBefore = TRUE
   InitStates = {"Queued", "Locked"}
   B <- BCrash
   MaxHist = 120
